@@ -715,6 +715,12 @@ def decorate(b, rng, kinds):
             if pts and rng.random() < 0.5:
                 # a user constraint attached to the partition itself (public BlockPartition.add_constraint)
                 b.bound(b.sq(rng.choice(pts)), 3e3, target=Bp)
+        elif kind == "composite_items" and pts and info.get("F"):
+            # a constraint and an LMI attached to a *composite* function
+            b.bound(b.sq(rng.choice(pts)), 2.5e3, target=info["F"])
+            if info.get("metrics") and rng.random() < 0.6:
+                s_ = b.newexpr()
+                b.psd([[info["metrics"][0], s_], [s_, 1.0]], target=info["F"])
         elif kind == "zero_coef" and pts and info.get("metrics"):
             # coefficients that are exactly zero after construction (0 * e keeps its keys)
             p = rng.choice(pts)
@@ -758,7 +764,7 @@ def decorate(b, rng, kinds):
 
 DECORATIONS = ["extra_metric", "redundant_cons", "eq_cons", "func_cons", "lmi_sym", "lmi_asym", "lmi_func", "lmi3",
                "unused_query", "useless_partition", "orphan_psd", "part_cons", "zero_coef", "mirror", "leaf_metric",
-               "leaf_sides"]
+               "leaf_sides", "composite_items"]
 
 
 def build_model(rng, prefix="", template=None, n=None, decorations=None, names=None, weights=None,
